@@ -68,6 +68,7 @@ type Engine struct {
 	bounds                  map[string]int
 	tier                    string
 	aborted                 bool
+	stopEarly               bool // a counterexample was confirmed natively: the exploration ends
 	regMu                   sync.Mutex
 	registered              map[string][]types.Type // interface type -> registered implementation types
 	regDone                 bool
@@ -142,6 +143,9 @@ func (st *State) assume(c *Term) {
 func (st *State) feasible(c *Term) bool {
 	if !st.deadline.IsZero() && time.Now().After(st.deadline) {
 		panic(pathEnd{kind: "timeout", msg: "wall-clock cap reached inside a path"})
+	}
+	if st.e.stopEarly {
+		panic(pathEnd{kind: "stopped"})
 	}
 	r := st.solver.Check(c)
 	st.solver.EndCheck()
